@@ -56,8 +56,14 @@ Shapes2 == {"join", "comma", "subq_in", "cte", "cte_shadow", "union"}
 
 Plain == [fn |-> "none", decoy |-> "none", ws |-> "sp", kw |-> "upper"]
 Styles == {Plain}
-          \cup { [Plain EXCEPT !.fn = f]    : f \in {"extract", "substring", "trim"} }
-          \cup { [Plain EXCEPT !.decoy = d] : d \in {"string", "block", "line"} }
+          \* FROM-bearing function bodies, also nested: a function call inside the body BEFORE the outer FROM
+          \* (SUBSTRING(TRIM(host) FROM 1 FOR 2), TRIM(BOTH SUBSTRING(host FROM 1 FOR 1) FROM host)) and after it
+          \* (TRIM(BOTH 'h' FROM SUBSTRING(host FROM 1 FOR 3)))
+          \cup { [Plain EXCEPT !.fn = f]    : f \in {"extract", "substring", "trim", "substring_of_trim", "trim_nested_before", "trim_of_substring"} }
+          \cup { [Plain EXCEPT !.decoy = d] : d \in {"string", "string_join", "block", "line"} }
+          \* a string literal holding a keyword look-alike ('x from mem y', 'x join mem y') combined with the white
+          \* space classes after the real FROM (text searches for "from " then find the literal first)
+          \cup { [fn |-> "none", decoy |-> z[1], ws |-> z[2], kw |-> "upper"] : z \in {"string", "string_join"} \X {"nl", "tab", "nlsp", "sp2"} }
           \cup { [Plain EXCEPT !.ws = w]    : w \in {"sp2", "nl", "tab", "nlsp", "cmt"} }
           \cup { [Plain EXCEPT !.kw = k]    : k \in {"lower", "mixed"} }
           \cup { [fn |-> "extract", decoy |-> "none", ws |-> "nl", kw |-> "lower"],
@@ -84,7 +90,9 @@ RefSites(q) ==
 NonSites(q) ==
     (IF q.shape = "cte" THEN <<"x">> ELSE IF q.shape = "cte_shadow" THEN <<q.r1.name>> ELSE <<>>)
     \o (CASE q.style.fn = "extract" -> <<"time">> [] q.style.fn = "substring" -> <<"1">>
-          [] q.style.fn = "trim" -> <<"host">> [] OTHER -> <<>>)
+          [] q.style.fn = "trim" -> <<"host">> [] q.style.fn = "substring_of_trim" -> <<"1">>
+          [] q.style.fn = "trim_nested_before" -> <<"1", "host">> [] q.style.fn = "trim_of_substring" -> <<"SUBSTRING", "1">>
+          [] OTHER -> <<>>)
     \o (IF q.style.decoy # "none" THEN <<"mem">> ELSE <<>>)
 
 Init == \E q \in Queries : st = [phase |-> "query", q |-> q, sites |-> <<>>, nonsites |-> <<>>]
